@@ -1,9 +1,10 @@
 """C07 — every residual formulation offered to the root finder vanishes exactly at, and only at, true equilibrium states.
 
 State space (DESIGN.md §3 C07), a product lattice swept completely:
-  system     every subset of size 1..m of a pool of homogeneous equilibria sharing H+/NH3/H2O (mc/ref/eqmodel.py)
+  system     every subset of size 1..m of a pool of homogeneous equilibria sharing H+/NH3/H2O/HCO3- (mc/ref/eqmodel.py;
+             quick: 6 equilibria, m=3 -> 41 systems; thorough: 8 equilibria, m=4 -> 162 systems)
   order      substances given to EqSystem in order of first appearance / reversed
-  c*         an all-positive, all-distinct exact rational state (3 assignments); K_i := Q_i(c*) exactly, so c* is an
+  c*         an all-positive, all-distinct exact rational state (2 assignments, thorough 3); K_i := Q_i(c*) exactly, so c* is an
              equilibrium state by construction
   xi         every reaction-extent vector in {-1,0,1}^nr x {1/1000, 1}; init = c* - S^T xi  (scale 1 gives initial
              "states" with negative components: they still define the conserved totals)
@@ -12,6 +13,8 @@ State space (DESIGN.md §3 C07), a product lattice swept completely:
   mode       direct : NumSys.f(transform(c*), init + K) called with exact numbers, zero decided exactly in sympy
              symbolic: NumSys.f(symbols, symbols) (what EqSystem hands to pyneqsys), lambdified with mpmath and
                        evaluated at 50 digits
+Which extents get which treatment (exact zero test / perturbation families, per mode, per c* assignment) is fixed per tier
+in plan() and reported in bounds(): the zero test runs on the full extent set, perturbations on the "core" subsets.
 Oracle (from the statement): every component is zero at c*; the number of components is nr + #composition keys
 (rank of the balance matrix when rref_preserv); each of four perturbation families makes at least one component
 non-zero: one species doubled, a step along one reaction (Q violated, totals kept), the initial amount of one
